@@ -4,7 +4,7 @@ from __future__ import annotations
 import core
 import client as cl
 import lockstep as ls
-from props.c09 import reference_script
+from props.c09 import reference_script, kill_histories
 
 HEADER = ls.HEADER
 
@@ -142,6 +142,10 @@ def run(ctx: core.Ctx):
         drivers.append(d)
         if w and witness is None:
             witness = dict(kind="lifecycle", events=[e[:60] for e in d.events][-25:], **w)
+    # endings by a kill through the real registry, on targets with a history of earlier kills
+    kh = kill_histories(ctx)
+    if kh and witness is None:
+        witness = dict(kind="lifecycle-after-kills", problems=kh[:4])
     terms = [ls.coq_term(d) for d in drivers]
     model = core.run_coq_terms(ctx, "c10t", HEADER, terms, shard=40)
     disagreements = []
@@ -164,7 +168,8 @@ def run(ctx: core.Ctx):
         rule="reference conversation (handshake, streamed queries, prepared statement, open cursor, change user): at every script "
              "position a clean disconnect, a disconnect after 1..11 bytes of the next packet, a socket failure (every later drain raises), "
              "an exception (MysqlError and other) from the pending application callback incl. get_user / init / close, a bad sequence id; "
-             "pairs of these; random walks with faults and kills; each run is driven to termination and replayed on Model/Conn.v; oracle: "
+             "pairs of these; random walks with faults and kills; endings by KILL CONNECTION through the real LocalControl after a history of "
+             "KILL QUERYs (props/c09.kill_histories); each run is driven to termination and replayed on Model/Conn.v; oracle: "
              "close count = (init returned), no session call after close, writer closed and registry entry removed exactly once, no task "
              "left. distinct = runs",
         samples=[dict(faults=repr(plans[9]), events=[e[:50] for e in drivers[9].events[:12]])], distinct=len(drivers),
